@@ -16,6 +16,7 @@ pub const KIND_POINT: u32 = 0;
 pub const KIND_SPIN:  u32 = 1;
 
 static HOOK: AtomicUsize = AtomicUsize::new(0);
+static NOTE: AtomicUsize = AtomicUsize::new(0);
 
 thread_local! {
     static SEQUENCE_ORIGIN: Cell<Option<u32>> = const { Cell::new(None) };
@@ -45,6 +46,22 @@ pub fn point(site: u32) {
 #[inline(always)]
 pub fn spin(site: u32) {
     call(site, KIND_SPIN);
+}
+
+/// Installs (or removes) the callback receiving `(site, value)` observations: values the code based a decision on
+/// (a sampled length, the stream id it is about to wake) -- so a monitor can tell *why* something happened
+pub fn install_note(hook: Option<fn(u32, u64)>) {
+    NOTE.store(hook.map(|f| f as usize).unwrap_or(0), Release);
+}
+
+/// "this is the value I am deciding on"
+#[inline(always)]
+pub fn note(site: u32, value: u64) {
+    let hook = NOTE.load(Acquire);
+    if hook != 0 {
+        let hook: fn(u32, u64) = unsafe { std::mem::transmute::<usize, fn(u32, u64)>(hook) };
+        hook(site, value);
+    }
 }
 
 /// Sets, for the calling thread, the value the sequence counters of ring buffers constructed from now on will start from
@@ -96,7 +113,7 @@ sites! {
     UNI_AFTER_PUBLISH_BEFORE_WAKE, UNI_XB_BETWEEN_LEN_AND_SEND, UNI_XB_AFTER_SEND_BEFORE_WAKE, UNI_XB_AFTER_FULL_TEST,
     // multi channels
     MULTI_FANOUT_BEFORE_COUNT, MULTI_FANOUT_AFTER_INCREMENT, MULTI_FANOUT_BEFORE_ENTRY, MULTI_FANOUT_BEFORE_PUBLISH,
-    MULTI_FANOUT_BEFORE_WAKE, MULTI_XB_BETWEEN_LEN_AND_SEND,
+    MULTI_FANOUT_BEFORE_WAKE, MULTI_XB_BETWEEN_LEN_AND_SEND, MULTI_LEN_AFTER,
     // mmap log
     MMAP_PUBLISH_AFTER_RESERVE, MMAP_PUBLISH_AFTER_SETTER, MMAP_PUBLISH_SPIN,
     MMAP_CONSUME_AFTER_RESERVE, MMAP_CONSUME_RECEDE_SPIN, MMAP_SUBSCRIBE_AFTER_TAIL,
